@@ -56,6 +56,8 @@ type vConn struct {
 	reading  bool
 	sending  bool
 	gate     chan error // non-nil while a SendMessage for this socket is blocked
+	closeGate chan struct{} // non-nil: the next Close() blocks on it
+	closeHeld bool          // a Close() call is parked right now
 }
 
 type vPkt struct {
@@ -324,6 +326,15 @@ func (c *vConn) Close() error {
 	defer c.w.mu.Unlock()
 	c.closes++
 	c.w.logf("close", c.owner, "close,%d", c.k)
+	if g := c.closeGate; g != nil {
+		// a slow Close(): the caller (inside CloseWithErr, holding connLock) is parked here
+		c.closeGate = nil
+		c.closeHeld = true
+		c.w.mu.Unlock()
+		<-g
+		c.w.mu.Lock()
+		c.closeHeld = false
+	}
 	if c.closes == 1 {
 		close(c.closedCh)
 	} else {
@@ -631,6 +642,93 @@ func (h *vHist) do(op string) (res vh.Result) {
 		h.learn(m.SessionID, evs, true)
 		res.ModelOp = op + " " + victimOf(before, e)
 		res.Out, res.NonTrivial = h.result(evs, "")
+	case "slowclose":
+		// The sweeper is parked inside CloseWithErr → conn.Close() of session sid's expired entry (the
+		// entry is closed, its exit function has not run yet) while a complete datagram re-using the id
+		// arrives; then Close() returns. Steps: arm a gate on the session's socket, let virtual time run
+		// to the first sweep that finds the entry idle, yield until the fake Close() has been entered,
+		// deliver the datagram and wait (the sweeper sits on the gate channel, not on a mutex, and the
+		// receive loop takes no connLock for an entry that has a conn), open the gate, wait.
+		// Only the census is compared.
+		if len(f) != 10 {
+			return bad
+		}
+		m, err := parseMsg(f[1:7])
+		if err != nil || !h.setEnv(f[7], f[8], f[9]) {
+			return bad
+		}
+		if h.held != nil || h.down {
+			return vh.Result{Out: "busy", ModelOp: op + " ."}
+		}
+		var target *vConn
+		if e := h.lookupEntry(m.SessionID); e != nil {
+			if vc, ok := e.conn.(*vConn); ok && vc != nil {
+				h.w.mu.Lock()
+				if vc.closes == 0 {
+					target = vc
+				}
+				h.w.mu.Unlock()
+			}
+		}
+		if target == nil {
+			res.ModelOp = op + " ."
+			res.Out = "skip | " + h.summary()
+			break
+		}
+		t0 := h.now()
+		lastAct := h.lookupEntry(m.SessionID).Last.Get().Sub(h.w.start)
+		tk := (time.Duration(int64(lastAct+h.timeout)/int64(vInterval)) + 1) * vInterval
+		if tk <= t0 {
+			tk = (time.Duration(int64(t0)/int64(vInterval)) + 1) * vInterval
+		}
+		gate := make(chan struct{})
+		h.w.mu.Lock()
+		target.closeGate = gate
+		h.w.mu.Unlock()
+		time.Sleep(tk - t0) // wakes at the same instant as the sweeper's ticker
+		parked := false
+		for i := 0; i < 4000000 && !parked; i++ { // ends as soon as Close() is entered; the bound only guards a changed tree
+			runtime.Gosched()
+			h.w.mu.Lock()
+			parked = target.closeHeld
+			h.w.mu.Unlock()
+		}
+		if parked {
+			h.feedMsg(m, nil)
+		}
+		h.w.mu.Lock()
+		target.closeGate = nil
+		h.w.mu.Unlock()
+		close(gate)
+		synctest.Wait()
+		evs := h.drain()
+		first := int(t0/vInterval) + 1
+		last := int(tk / vInterval)
+		groups := make([]string, 0, 4)
+		for n := first; n <= last; n++ {
+			var ids []string
+			for _, e := range evs {
+				if e.kind == "logclose" && e.at == time.Duration(n)*vInterval {
+					ids = append(ids, strconv.FormatUint(uint64(e.sid), 10))
+				}
+			}
+			if len(ids) == 0 {
+				groups = append(groups, ".")
+			} else {
+				groups = append(groups, strings.Join(ids, ","))
+			}
+			// expectation: sessions idle at this sweep are gone; the datagram that met the dying entry
+			// starts no session
+			for sid, y := range h.exp {
+				if time.Duration(n)*vInterval-y.last > h.timeout {
+					delete(h.exp, sid)
+				}
+			}
+		}
+		// (if the sweeper was not seen parked — a heavily loaded machine, or a changed tree — the datagram
+		// was not fed; on the unchanged tree the census is the same either way)
+		res.ModelOp = op + " " + strings.Join(groups, "/")
+		res.Out, res.NonTrivial = "slowc | "+h.summary(), parked
 	case "slowdial":
 		// A datagram whose dial (if one happens) is still in flight when the sweep that finds the entry
 		// idle fires: deliver the datagram with io.UDP blocked, let virtual time run to that sweep tick,
@@ -661,7 +759,7 @@ func (h *vHist) do(op string) (res vh.Result) {
 		h.w.mu.Lock()
 		heldAtTick := h.w.dialHeld
 		h.w.mu.Unlock()
-		for i := 0; heldAtTick && i < 20000; i++ {
+		for i := 0; heldAtTick && i < 4000000; i++ { // ends on the close / the blocked closer; the bound only guards a changed tree
 			runtime.Gosched()
 			h.w.mu.Lock()
 			closedSeen := false
@@ -1512,6 +1610,23 @@ func genSession(r *vh.RNG, n int, emit func(op string, tags ...string)) {
 					emit("release "+env(), "s:release")
 					holding = false
 				}
+				total++
+			case c >= 96 && c < 99 && !lost: // id re-used while the sweeper is parked in Close() of the expired entry
+				m := &protocol.UDPMessage{SessionID: sids[r.Intn(3)], PacketID: uint16(r.Intn(4)), FragCount: 1, Addr: pool[r.Intn(len(pool))], Data: payload(r.Range(2, 12))}
+				if r.Chance(2, 3) { // make it likely that the session has a socket
+					m0 := *m
+					m0.Data = payload(r.Range(2, 8))
+					emit("msg "+msgLine(&m0)+" K 0 1", "s:msg")
+					total++
+				}
+				emit("slowclose "+msgLine(m)+" "+env(), "s:slowclose")
+				if r.Chance(1, 2) { // a later datagram with the id must get exactly one new socket
+					m2 := *m
+					m2.Data = payload(r.Range(2, 8))
+					emit("msg "+msgLine(&m2)+" "+env(), "s:msg")
+					total++
+				}
+				dials++
 				total++
 			case c < 3: // first dial still in flight when the sweep finds the entry idle
 				m := &protocol.UDPMessage{SessionID: sid, PacketID: uint16(r.Intn(4)), FragCount: 1, Addr: pool[r.Intn(len(pool))], Data: payload(r.Range(2, 12))}
